@@ -117,6 +117,9 @@ pub fn run(args: &[&str]) -> String { run_mode(args, false) }
 pub fn run_alloc(args: &[&str]) -> String { run_mode(args, true) }
 
 fn run_mode(args: &[&str], count_allocs: bool) -> String {
+    // ONE Context per history, as an interface keeps one per session; `m0:`/`m1:` write its message-available flag,
+    // `mk:` leaves it as it is (Node::run must not have touched it)
+    let mut ctx = Context::new();
     let mut d = Dev::new();
     if count_allocs { d.errors.reserve(4096); }
     let mut out = Vec::new();
@@ -126,8 +129,7 @@ fn run_mode(args: &[&str], count_allocs: bool) -> String {
         match head.as_bytes()[0] {
             b'm' => {
                 let msg = unhex(val);
-                let mut ctx = Context::new();
-                ctx.mav = head.as_bytes()[1] == b'1';
+                if head.as_bytes()[1] != b'k' { ctx.mav = head.as_bytes()[1] == b'1'; }
                 let mut resp: Vec<u8> = if count_allocs { Vec::with_capacity(1 << 16) } else { Vec::new() };
                 d.hook_calls = 0;
                 let before = crate::k_tree::allocs();
